@@ -28,8 +28,9 @@ def pts_roundtrip(tier):
     return pts
 
 
-def rt(ctx, c, o, blk):
+def rt(ctx, c, o, blk, tag=''):
     n = F.BLOCKLEN[c]
+    c = c + tag
     e = ctx.attempt(o.enc, blk)
     ctx.ok('C03/%s/enc-length' % c, e[0] == 'ok' and isinstance(e[1], bytes) and len(e[1]) == n, e)
     if e[0] == 'ok':
@@ -75,6 +76,24 @@ def run_inter(ctx, pt):
     for (c, o) in ((a, A), (b, B), (a, A)):
         for blk in F.fixed_blocks(c)[1:]:
             rt(ctx, c + '/with-another-live-instance', o, blk) if False else rt(ctx, c, o, blk)
+
+
+def pts_tfstates(tier):
+    return [(c, s) for c in ('tf256', 'tf512', 'tf1024') for s in range(0, (20 if c == 'tf1024' else 18) + 1)]
+
+
+def run_tfstates(ctx, pt):
+    """round trips on blocks crafted (with the reference Threefish, used here only to choose inputs) so that the state after
+    subkey injection s carries boundary words; and on the decryption side, ciphertexts of those blocks"""
+    from mc.engine import InternalError
+    c, s = pt
+    try:
+        key, tw, blocks = F.tf_crafted_blocks(c, s)
+    except AssertionError as e:
+        raise InternalError(str(e))
+    o = F.make(c, key, tw)
+    for P in blocks:
+        rt(ctx, c, o, P, '/internal-state-classes')
 
 
 def pts_manykeys(tier):
@@ -229,6 +248,8 @@ def subchecks():
             bound='per cipher (AES-128/192/256, DES, TDEA, Serpent, Threefish-256/512/1024): key family (DES/TDEA: incl. the 72 keys written over the weak-key byte alphabet) x 3 blocks, 3 keys x block family, Threefish tweak family: dec(enc(B))==B, enc(dec(B))==B, lengths (quick: every 4th family member)'),
         Sub('interleaved-instances', pts_inter, run_inter, engine='H',
             bound='every ordered pair of the 9 cipher configurations: A constructed, then B, round trips on A, B, A'),
+        Sub('threefish-internal-states', pts_tfstates, run_tfstates, engine='P',
+            bound='Threefish-256/512/1024 x every subkey injection s: dec(enc(B)) and enc(dec(B)) on blocks chosen so that the state right after injection s has a last word in {0..3, s-1, s, 2^64-s, 2^64-1, 2^63} or a zero / all-ones first word'),
         Sub('many-keys', pts_manykeys, run_manykeys, engine='H', exhaustive=False, chunk=1,
             bound='thorough only: 9000 distinct keys (AES-256: 4500) used one after the other in one process for AES-128, DES, Threefish-256, then the first key again'),
         Sub('components', pts_components, run_components, engine='D',
